@@ -53,6 +53,8 @@ def src_file(rng, tier, base, fmt=None, tb=None, name="in"):
                 if rng.random() < 0.25:
                     t[0] = rng.choice(model.W_PAREN + model.W_PAREN[-3:] * 2)
                     parens = True
+                elif t[0] in model.W_PUNCT and rng.random() < 0.5:
+                    t[1] = rng.choice(model.P_PAREN)      # a bracket in the tag only
     gz = fmt in ("export", "brackets") and rng.random() < 0.15
     path = "%s/%s%s%s" % (base, name, ext, ".gz" if gz else "")
     return fmt, path, {"tb": tb, "codec": codec, "layout": rng.randrange(1 << 30),
